@@ -93,6 +93,29 @@ T('pkgL_t_filter_loop_builds_new_list', ['C20'],
   (FL, "    ret = [fn for fn in ret if not fn.startswith(main_lib_dir)]\n",
        "    kept = []\n    for fn in ret:\n        if not fn.startswith(main_lib_dir):\n            kept.append(fn)\n    ret = kept\n"))
 
+T('pkgL_t_routes_comprehension', ['C20'],
+  (FL, _ROUTES, "    routes = [(pattern, get_flaw_info, 'flaw_tmpl') for pattern in ('/', '/<_ignored*>')]\n"
+                "    routes.insert(1, ('/clastic_assets/', StaticApplication(_ASSET_PATH)))\n"))
+T('pkgL_t_render_factory_public_helper', ['C20'],
+  (FL, "    arf = AshesRenderFactory()\n    arf.register_source('flaw_tmpl', _FLAW_TEMPLATE)\n", "    arf = make_render_factory()\n"),
+  (FL, "def get_flaw_info(tb_str,", "def make_render_factory():\n    factory = AshesRenderFactory()\n    factory.register_source('flaw_tmpl', _FLAW_TEMPLATE)\n"
+                                    "    return factory\n\n\ndef get_flaw_info(tb_str,"))
+T('pkgL_t_suppress_context_manager', ['C20'],
+  (FL, "import os\nimport re\n", "import os\nimport re\nfrom contextlib import suppress\n"),
+  (FL, _TRY, "    parsed_error = {}\n    with suppress(Exception):\n        parsed_error = _ParsedTB.from_string(traceback_string).to_dict()\n"))
+T('pkgL_t_exception_line_public_helper', ['C20'],
+  (FL, "        for line in reversed(tb_lines):\n            # get the bottom-most line that looks like an actual Exception\n"
+       "            # repr(), (i.e., \"Exception: message\")\n            exc_type, sep, exc_msg = line.partition(':')\n"
+       "            if sep and exc_type and len(exc_type.split()) == 1:\n                break\n",
+       "        kind, text = find_exception_line(tb_lines)\n"),
+  (FL, "        return cls(exc_type, exc_msg, frames)", "        return cls(kind, text, frames)"),
+  (FL, "class _ParsedTB(object):\n", "def find_exception_line(lines):\n    for line in reversed(lines):\n        head, colon, tail = line.partition(':')\n"
+                                     "        if colon and head and len(head.split()) == 1:\n            break\n    return head, tail\n\n\nclass _ParsedTB(object):\n"))
+T('pkgL_t_ignored_lines_while_condition', ['C20'],
+  (FL, "        while tb_lines:\n            cl = tb_lines[-1]\n            if cl.startswith('Exception ') and cl.endswith('ignored'):\n"
+       "                # handle some ignored exceptions\n                tb_lines.pop()\n            else:\n                break\n",
+       "        while tb_lines and tb_lines[-1].startswith('Exception ') and tb_lines[-1].endswith('ignored'):\n            del tb_lines[-1]\n"))
+
 # ------------------------------------------------------------------ breaking: each must be reported by the named rule
 B('pkgL_b_handler_substitutes_nothing', ['C20'], 'R20.b',
   (FL, "    except:\n        parsed_error = {}\n", "    except:\n        pass\n"))
@@ -120,3 +143,12 @@ B('pkgL_b_swapped_after_rename', ['C20'], 'R20.d',
 B('pkgL_b_windows_test_inverted', ['C20'], 'R20.a', (SV, "        if os.name == 'nt':\n", "        if os.name != 'nt':\n"))
 B('pkgL_b_registered_other_factory', ['C20'], 'R20.b',
   (FL, "    app = Application(routes, resources, render_factory=arf)\n", "    app = Application(routes, resources, render_factory=AshesRenderFactory())\n"))
+B('pkgL_b_suppress_too_narrow', ['C20'], 'R20.b',
+  (FL, "import os\nimport re\n", "import os\nimport re\nfrom contextlib import suppress\n"),
+  (FL, _TRY, "    parsed_error = {}\n    with suppress(ValueError):\n        parsed_error = _ParsedTB.from_string(traceback_string).to_dict()\n"))
+B('pkgL_b_qualified_names_rejected', ['C20'], 'R20.d',
+  (FL, "            if sep and exc_type and len(exc_type.split()) == 1:\n", "            if sep and exc_type.isidentifier():\n"))
+B('pkgL_b_header_without_colon', ['C20'], 'R20.d',
+  (FL, "        if tb_lines[0].strip() == 'Traceback (most recent call last):':", "        if tb_lines[0].strip() == 'Traceback (most recent call last)':"))
+B('pkgL_b_message_side_lost', ['C20'], 'R20.d',
+  (FL, "            exc_type, sep, exc_msg = line.partition(':')\n", "            exc_type, sep, exc_msg = line.rpartition(':')\n"))
